@@ -347,8 +347,8 @@ func (c *vfCtx) stoppedNow() bool {
 	if c.stopped {
 		return true
 	}
-	c.idx++
-	if c.idx%256 == 0 && !c.deadline.IsZero() && time.Now().After(c.deadline) {
+	c.tick++
+	if c.tick%256 == 0 && !c.deadline.IsZero() && time.Now().After(c.deadline) {
 		c.stopped = true
 		c.cap("deadline")
 		return true
